@@ -13,7 +13,7 @@ mkdir -p bin evidence replays .work
 cache_dir="$(go env GOCACHE 2>/dev/null)"
 if [ -n "$cache_dir" ] && [ -d "$cache_dir" ]; then
   cache_mb=$(timeout 20 du -sm "$cache_dir" 2>/dev/null | cut -f1)
-  if [ -n "${cache_mb:-}" ] && [ "$cache_mb" -gt 12288 ]; then go clean -cache >/dev/null 2>&1; fi
+  if [ -n "${cache_mb:-}" ] && [ "$cache_mb" -gt 30720 ]; then go clean -cache >/dev/null 2>&1; fi
 fi
 # stale scratch directories of killed runs
 find .work -mindepth 1 -maxdepth 1 -type d -mmin +120 -exec rm -rf {} + 2>/dev/null
